@@ -877,6 +877,51 @@ func src(p *pkg, n ast.Node) string {
 	return string(b[start.Offset:end.Offset])
 }
 
+// ---- argument validation: sign comparisons in the Validate() methods of the argument structs ----
+
+// signChecks lists, in source order, every comparison `args.<Field>.Sign() <op> <int literal>` found in a method
+// named Validate of file goFile: (receiver type, field, operator, literal)
+func signChecks(goFile string) [][4]string {
+	fset := token.NewFileSet()
+	f, err := parser.ParseFile(fset, goFile, nil, 0)
+	if err != nil {
+		die("parse %s: %v", goFile, err)
+	}
+	var out [][4]string
+	for _, d := range f.Decls {
+		fd, ok := d.(*ast.FuncDecl)
+		if !ok || fd.Name.Name != "Validate" || fd.Recv == nil {
+			continue
+		}
+		rt := recvType(fd)
+		ast.Inspect(fd.Body, func(n ast.Node) bool {
+			be, ok := n.(*ast.BinaryExpr)
+			if !ok {
+				return true
+			}
+			call, ok := be.X.(*ast.CallExpr)
+			if !ok {
+				return true
+			}
+			sel, ok := call.Fun.(*ast.SelectorExpr)
+			if !ok || sel.Sel.Name != "Sign" {
+				return true
+			}
+			field := exprString(sel.X)
+			if i := strings.Index(field, "."); i >= 0 {
+				field = field[i+1:]
+			}
+			lit, ok := be.Y.(*ast.BasicLit)
+			if !ok {
+				die("%s: %s.Validate compares Sign() with a non-literal", goFile, rt)
+			}
+			out = append(out, [4]string{rt, field, be.Op.String(), lit.Value})
+			return true
+		})
+	}
+	return out
+}
+
 // ---- dependencies ----
 
 func modVersion(gomod, path string) (repl string, ver string) {
@@ -1093,6 +1138,18 @@ func main() {
 		fmt.Fprintf(&sb, "(* calls of recover() anywhere in the package (helpers included) *)\nDefinition %s_pkg_recover_calls : Z := %d.\n", nm, nrec)
 		fmt.Fprintf(&sb, "(* readonly guard, switch check and dispatch are consecutive unconditional statements of the lookup branch *)\nDefinition %s_guards_flat : bool := %s.\n\n", nm, fl)
 	}
+	sb.WriteString("(* x/staking/types/contract.go, x/crosschain/types/contract.go: every `args.F.Sign() op literal` in a Validate() method,\n   the condition under which the call is REFUSED: (args type, field, operator, literal) *)\n")
+	sb.WriteString("Definition arg_sign_checks : list (string * string * string * string) := [\n")
+	var scs [][4]string
+	scs = append(scs, signChecks(filepath.Join(repo, "x/staking/types/contract.go"))...)
+	scs = append(scs, signChecks(filepath.Join(repo, "x/crosschain/types/contract.go"))...)
+	for i, c := range scs {
+		if i > 0 {
+			sb.WriteString(";\n")
+		}
+		fmt.Fprintf(&sb, "  (%s, %s, %s, %s)", coqStr(c[0]), coqStr(c[1]), coqStr(c[2]), coqStr(c[3]))
+	}
+	sb.WriteString("\n].\n\n")
 	gomodB, err := os.ReadFile(filepath.Join(repo, "go.mod"))
 	if err != nil {
 		die("read go.mod: %v", err)
